@@ -25,7 +25,7 @@ EXTRA = {  # other checks that are expected to notice the change as well
     # fourth round
     "C08_r5m2": ["C04"], "C08_r5m3": ["C09"], "C01_r5m1": ["C04"], "C01_r5m2": ["C05"], "C01_r5m3": ["C03"],
     # sixth round
-    "C01_r6m1": ["C18"], "C15_r6m3": ["C05"], "C07_r6m3": ["C06"],
+    "C01_r6m1": ["C18"], "C01_r6m2": ["C04"], "C15_r6m3": ["C05"], "C07_r6m3": ["C06"],
     "C05_r4m3": ["C15"], "C07_r4m3": ["C06"], "C11_r4m2": ["C15"], "C14_r4m2": ["C15"], "C15_r4m2": ["C05"], "C04_r4m2": ["C16"],
 }
 
